@@ -425,3 +425,10 @@ Example lin_runs :
   MiniPy.exec (lin_prim ex_cs) 0 g_linSigma (ex_env 8) = ORaise /\
   Model.Windows.flanks 4 7 = (1, 2)%nat /\ Model.Windows.flanks 3 7 = (1, 1)%nat.
 Proof. repeat split; vm_compute; reflexivity. Qed.
+
+(* ---------- the public getters (SequenceParameters) are exactly a return of the backend call with their own arguments ---------- *)
+Lemma fw_get_linear_sigma : g_fw_get_linear_sigma = SReturn (ECall "SeqObj.linearDistOfSigma"%string [EVar "blobLen"%string]). Proof. reflexivity. Qed.
+Lemma fw_get_linear_NCPR : g_fw_get_linear_NCPR = SReturn (ECall "SeqObj.linearDistOfNCPR"%string [EVar "blobLen"%string]). Proof. reflexivity. Qed.
+Lemma fw_get_linear_FCR : g_fw_get_linear_FCR = SReturn (ECall "SeqObj.linearDistOfFCR"%string [EVar "blobLen"%string]). Proof. reflexivity. Qed.
+Lemma fw_get_linear_hydropathy : g_fw_get_linear_hydropathy = SReturn (ECall "SeqObj.linearDistOfHydropathy"%string [EVar "blobLen"%string]). Proof. reflexivity. Qed.
+Lemma fw_get_linear_sequence_composition : g_fw_get_linear_sequence_composition = SReturn (ECall "SeqObj.linearCompositions"%string [EVar "blobLen"%string; EVar "grps"%string]). Proof. reflexivity. Qed.
